@@ -194,6 +194,8 @@ func steps(nodes []node) []step {
 				step{Op: "Chmod", Path: n.Path + "/c", Mode: 0o644})
 		case "F":
 			st = append(st, step{Op: "WriteFile", Path: n.Path, Arg: "abc"})
+		case "E":
+			st = append(st, step{Op: "WriteFile", Path: n.Path, Arg: ""})
 		case "L":
 			st = append(st, step{Op: "WriteFile", Path: "tf", Arg: "t"},
 				step{Op: "Chmod", Path: "tf", Mode: 0o644},
@@ -373,7 +375,7 @@ func equalLines(a, b []string) bool {
 	return true
 }
 
-func (w *worker) args(f *family, c callT, a user) opArgs {
+func (w *worker) args(f *family, nodes []node, c callT, a user) opArgs {
 	op := opArgs{A: w.abs(f.Leaf)}
 
 	if c.Up {
@@ -394,6 +396,19 @@ func (w *worker) args(f *family, c callT, a user) opArgs {
 
 	if c.Form != "" {
 		op.Uid, op.Gid = resolveChown(c.Form, a)
+	}
+
+	// no-op arguments (space.go, callsCurPath): the current owner and group of
+	// the operand, the operand's own name as the new name
+	if c.Cur {
+		switch c.Op {
+		case "Chown", "Lchown", "File.Chown":
+			if n := findRole(nodes, "leaf"); n != nil {
+				op.Uid, op.Gid = n.Uid, n.Gid
+			}
+		case "Rename":
+			op.B = op.A
+		}
 	}
 
 	return op
@@ -491,6 +506,7 @@ type evalOut struct {
 	removeAllViaRemove bool
 	maskedChmod        bool
 	args               opArgs
+	call               callT // the call with its no-op arguments resolved
 }
 
 func isPermKind(k string) bool {
@@ -502,8 +518,9 @@ func isPermKind(k string) bool {
 // eval runs one call on the configuration currently built.
 func (w *worker) eval(b *block, nodes []node, c callT) (out evalOut, err error) {
 	u := users[b.Actor]
-	a := w.args(b.Fam, c, u)
-	out.args = a
+	c = resolveCur(c, nodes)
+	a := w.args(b.Fam, nodes, c, u)
+	out.args, out.call = a, c
 
 	out.rk = w.kernelRun(c, a, u)
 
@@ -1187,6 +1204,10 @@ func lacks(f *family, nodes []node, u user, c callT) string {
 }
 
 func (w *worker) makeReplay(b *block, nodes []node, c callT, o evalOut, diff string) *replay {
+	if o.call.Op != "" {
+		c = o.call
+	}
+
 	return &replay{
 		Family: b.Fam.ID, Depth: b.Fam.Depth, Nodes: nodes, Leaf: b.Fam.Leaf, LeafKind: b.Fam.LeafKind,
 		Actor: users[b.Actor], Umask: fmt.Sprintf("%04o", uint32(c.Umask)), Call: c, CallText: w.callText(c, o.args),
